@@ -424,17 +424,28 @@ func (c *cmpAbs) step(in ssa.Instruction, env map[ssa.Value]av, caseD string) {
 				}
 				return false
 			}
-			if w, signed := typeBits(x.Type()); w > 0 && !signed && (negOf(x.X, x.Y) || negOf(x.Y, x.X)) {
+			if w, signed := typeBits(x.Type()); w > 0 && (negOf(x.X, x.Y) || negOf(x.Y, x.X)) {
 				src := a
 				if negOf(x.Y, x.X) {
 					src = b
 				}
 				if z, k := c.isZero(src); k {
-					if z {
+					switch {
+					case z:
 						env[val] = avConst(bi(0))
-					} else {
+					case !signed:
 						env[val] = c.fresh(pow2(uint(w-1)), new(big.Int).Sub(pow2(uint(w)), bi(1)), true)
+					default:
+						// two's complement: x | -x is negative exactly when x != 0
+						env[val] = c.fresh(new(big.Int).Neg(pow2(uint(w-1))), bi(-1), true)
 					}
+					return
+				}
+			}
+			// -1 | x = -1 (all ones absorb)
+			if _, signed := typeBits(x.Type()); signed {
+				if (a.lo.Cmp(a.hi) == 0 && a.lo.Cmp(bi(-1)) == 0) || (b.lo.Cmp(b.hi) == 0 && b.lo.Cmp(bi(-1)) == 0) {
+					env[val] = avConst(bi(-1))
 					return
 				}
 			}
@@ -517,6 +528,13 @@ func (c *cmpAbs) step(in ssa.Instruction, env map[ssa.Value]av, caseD string) {
 				// arithmetic shift of a negative value stays negative
 				k := uint(b.lo.Uint64())
 				out = c.fresh(new(big.Int).Rsh(a.lo, k), new(big.Int).Rsh(a.hi, k), true)
+				if out.lo.Cmp(out.hi) == 0 {
+					out = avConst(out.lo)
+				}
+			} else if _, signed := typeBits(x.X.Type()); signed && b.lo.Cmp(b.hi) == 0 && b.lo.IsUint64() && b.lo.Uint64() < 64 {
+				// arithmetic shift is floor division by 2^k: monotone over the whole signed range
+				k := uint(b.lo.Uint64())
+				out = c.fresh(new(big.Int).Rsh(a.lo, k), new(big.Int).Rsh(a.hi, k), false)
 				if out.lo.Cmp(out.hi) == 0 {
 					out = avConst(out.lo)
 				}
